@@ -13,6 +13,7 @@ from __future__ import annotations
 
 import ast
 import copy
+import re
 from typing import Dict, List, Optional, Tuple
 
 from sa import facts
@@ -221,6 +222,9 @@ class GuardFact:
         self.unknown: List[ast.AST] = []
         for t, pol in g.conds:
             for a, p in facts.split_conj(t, pol):
+                nx = _next_exists(a)
+                if nx is not None:
+                    a, p = nx[0], (p if nx[1] else not p)
                 ex = facts.exists_form(a)
                 if ex is not None:
                     tgt, it, cs = ex
@@ -391,7 +395,8 @@ def shared_list(ctx, o):
                 o.refute(m, st, st, f"{m.name} rebinds the facade's list (`{src(st)[:50]}`): the task and every children list handed out earlier keep "
                                     f"the old object and go stale; the shared list must be changed in place")
         for c in facts.calls_named(m, '__setter'):
-            if match("self._ChildrenList__setter(self._list)", c):
+            if match("self._ChildrenList__setter(self._list)", c) or \
+                    match("self._ChildrenList__setter(self._list)", expand_call(prog, m, ctx.typer, c)):
                 o.site(m, c, f"{m.name} publishes the shared list itself")
             else:
                 o.refute(m, c, c, f"{m.name} hands `{src(c.args[0]) if c.args else '?'}` to the task instead of the shared list object: lists handed "
@@ -488,6 +493,10 @@ def cond_formula(e: ast.AST, roles: Roles, extra: Dict[str, str], binder_seen: l
         c = cond_formula(e.test, roles, extra, binder_seen)
         return ('or', [('and', [c, cond_formula(e.body, roles, extra, binder_seen)]),
                        ('and', [F_not(c), cond_formula(e.orelse, roles, extra, binder_seen)])])
+    nx = _next_exists(e)
+    if nx is not None:
+        f_ = cond_formula(nx[0], roles, extra, binder_seen)
+        return f_ if nx[1] else F_not(f_)
     ex = facts.exists_form(e)
     if ex is None and isinstance(e, ast.Call) and isinstance(e.func, ast.Name) and e.func.id == 'bool' and e.args:
         ex = facts.exists_form(e.args[0])
@@ -500,11 +509,41 @@ def cond_formula(e: ast.AST, roles: Roles, extra: Dict[str, str], binder_seen: l
     lifted = _lift_ifexp(e)
     if lifted is not None:
         return cond_formula(lifted, roles, extra, binder_seen)
+    hl = _has_links(e)
+    if hl is not None:
+        return F_atom(f"haslinks:{hl[0]}({roles.render(hl[1], extra)})")
     ca = canon_atom(e, lambda x: roles.render(x, extra))
     if ca is not None:
         a = F_atom(ca[0])
         return F_not(a) if ca[1] else a
     return F_atom('opaque:' + roles.render(e, extra))
+
+
+def _has_links(e: ast.AST):
+    """truthiness of a task's direct link list: `x.predecessors` / `x.__predecessors` / `len(..) > 0` -> ('pred'|'succ', x)"""
+    m = match("len($l) > 0", e) or match("len($l) != 0", e) or match("len($l) >= 1", e) or match("len($l)", e) or match("bool($l)", e)
+    l = m['l'] if m else e
+    if isinstance(l, ast.Attribute) and l.attr in ('predecessors', '_Task__predecessors', 'successors', '_Task__successors'):
+        return ('pred' if 'predecessors' in l.attr else 'succ'), l.value
+    return None
+
+
+def _next_exists(e: ast.AST):
+    """`next((v for v in X if C), None) is not None` -> (`any(C for v in X)`, True);  `.. is None` -> (.., False): the first-offender
+    idiom says the same as the exists-form (the elements are tasks, never None - _check_no_nones_in_list)"""
+    if isinstance(e, ast.Compare) and len(e.ops) == 1 and isinstance(e.ops[0], (ast.Is, ast.IsNot, ast.Eq, ast.NotEq)) and \
+            isinstance(e.comparators[0], ast.Constant) and e.comparators[0].value is None:
+        m = match("next($g, None)", e.left)
+        g = m['g'] if m else None
+        if isinstance(g, (ast.GeneratorExp, ast.ListComp)) and len(g.generators) == 1 and isinstance(g.elt, ast.Name) and \
+                isinstance(g.generators[0].target, ast.Name) and g.elt.id == g.generators[0].target.id and g.generators[0].ifs:
+            gen = g.generators[0]
+            cond = gen.ifs[0] if len(gen.ifs) == 1 else ast.BoolOp(op=ast.And(), values=list(gen.ifs))
+            anyc = ast.Call(func=ast.Name(id='any', ctx=ast.Load()),
+                            args=[ast.GeneratorExp(elt=cond, generators=[ast.comprehension(target=gen.target, iter=gen.iter, ifs=[], is_async=0)])],
+                            keywords=[])
+            return ast.fix_missing_locations(anyc), isinstance(e.ops[0], (ast.IsNot, ast.NotEq))
+    return None
 
 
 def _lift_ifexp(e: ast.AST) -> Optional[ast.AST]:
@@ -572,8 +611,18 @@ def implication(R, fs: List) -> Optional[dict]:
     if len(names) > 16:
         return {'_too_many_atoms': True}
     n = len(names)
+    # background knowledge: A in B.all_predecessors (tpred(A,B)) implies that B has predecessors and A has successors
+    axioms = []
+    for a in names:
+        m = re.match(r"^tpred\(([^,()]+),([^,()]+)\)$", a)
+        if m:
+            for concl in (f"haslinks:pred({m.group(2)})", f"haslinks:succ({m.group(1)})"):
+                if concl in names:
+                    axioms.append((a, concl))
     for bits in range(1 << n):
         env = {names[i]: bool(bits >> i & 1) for i in range(n)}
+        if any(env[a] and not env[c] for a, c in axioms):
+            continue
         if evalf(R, env) and not any(evalf(x, env) for x in fs):
             return env
     return None
@@ -627,6 +676,9 @@ def require(ctx, o, f: Func, label: str, R, writes, eff, needs_elem: bool, mode_
     opaque += sorted({'opaque:' + a for g in early + late for a in atoms_of(g.formula)
                       if a.startswith('in(') and a not in atoms_of(R) and 'opaque:' + a not in opaque
                       and a[:-1].split(',', 1)[-1] not in _KNOWN_CONTAINERS})
+    # `<call / subscript / comprehension> is None`: a computed value the vocabulary cannot interpret
+    opaque += sorted({'opaque:' + a for g in early + late for a in atoms_of(g.formula)
+                      if a.startswith('none(') and a not in atoms_of(R) and any(ch in a[5:-1] for ch in '([') and 'opaque:' + a not in opaque})
     by_id = [a for a in opaque if '.id' in a and ('==' in a or '!=' in a or
                                                   (a.startswith('opaque:in(') and a[10:].split(',', 1)[0].endswith('.id')))]
     if by_id:
